@@ -31,3 +31,13 @@ package mem
 //@   ensures a % u == j
 //@   label C20.lemma.unitof.key
 //@   ensures a - a % u == q * u
+
+// Two different multiples of u are at least u apart (a fixed, every b): instantiated for every a by LoadCheckpoint, whose
+// unit addresses are loop locals (a `use` is evaluated at function entry).
+//@ lemma modApartAll(u, a)
+//@   property C20
+//@   requires u > 0 && a >= 0 && a % u == 0
+//@   label C20.lemma.modapart.above
+//@   ensures forall b nat :: b % u == 0 && a < b ==> a + u <= b
+//@   label C20.lemma.modapart.below
+//@   ensures forall b nat :: b % u == 0 && b < a ==> b + u <= a
